@@ -48,6 +48,12 @@ CLAIMED.update({
    note="The stack-effect table is a model of the implementation; every concrete trace is checked against it and, on a mismatch, the property is decided on the concrete trace itself (a mismatch with a balanced trace is a machinery error, exit 2). One known finding (jump-with-pending-operands) is matched by an exact defect model.",
    technique="explicit-state model checking of the bytecode control-flow graph (fixpoint over stack heights) with trace conformance against the real VM"),
 })
+CLAIMED.update({
+ "C13": dict(level="model_checking", design="4.13",
+   text="Exhaustive placement table: 23 single-line failing constructs (division/modulo by zero, index/key errors, bad operand kinds for binary/relational/unary/bitwise/shift operators, calling a non-function, wrong arity, failing builtins incl. nested and wrong-arity, property on a non-packet, $x with a non-integer, ...) x every sequence of <=3 preceding items out of 11 (blank line, comments, let, multi-line function/if/string/array, filter statement, if/else and match expression statements) x 7 contexts (top level, function called from a later line, closure, block, nested function, if branch, loop body) in-process via RTError.line, plus the filter-action context through the binary; the reported line must be the line where the harness placed the construct.",
+   note="CRLF sources are not generated. Constructs spanning several lines are outside the property.",
+   technique="exhaustive enumeration of construct x preceding-line histories x context on the real pipeline"),
+})
 NOT_YET = "check not built yet in this round (machinery under construction; see DESIGN.md section 4 for the planned check)"
 
 props = [json.loads(l) for l in open(os.path.join(HERE, "properties.jsonl"))]
